@@ -231,10 +231,10 @@ MUTANTS = [
     (DF, "        for p in empty_properties:\n            self._properties.remove(p)\n        return empty_properties", "        for p in empty_properties:\n            self._properties.remove(p)\n        return sorted(empty_properties)", ['definitions.remove_empty_properties'], 'breaks'),
     (DF, "        if len(self._objects) != len(objects):\n            raise ValueError(f'duplicate objects: {objects!r}')", "        pass", ['definitions.__init__'], 'breaks'),
     (DF, "                       for p, b in zip(properties, boo) if b}", "                       for p, b in zip(properties, boo) if not b}", ['definitions.__init__'], 'breaks'),
-    (TL, "        self._items = [item for item in iterable if item not in seen and not add(item)]", "        self._items = [item for item in set(iterable) if item not in seen and not add(item)]", ['tools.Unique.__init__'], 'breaks'),
-    (TL, "        self._items = [item for item in iterable if item not in seen and not add(item)]", "        self._items = [item for item in iterable if not add(item)]", ['tools.Unique.__init__'], 'breaks'),
+    (TL, "        self._items = [item for item in iterable\n", "        self._items = [item for item in set(iterable)\n", ['tools.Unique.__init__'], 'breaks'),
+    (TL, "                       if item not in seen and not add(item)]", "                       if not add(item)]", ['tools.Unique.__init__'], 'breaks'),
     (TL, "        return all(map(self._seen.__contains__, items))", "        return any(map(self._seen.__contains__, items))", ['tools.Unique.issuperset'], 'breaks'),
-    (DF, "        return [tuple(((o, p) in pairs for p in prop)) for o in self._objects]", "        return [tuple(((p, o) in pairs for p in prop)) for o in self._objects]", ['definitions.bools'], 'breaks'),
+    (DF, "        return [tuple((o, p) in pairs for p in prop) for o in self._objects]", "        return [tuple((p, o) in pairs for p in prop) for o in self._objects]", ['definitions.bools'], 'breaks'),
 ]
 
 
